@@ -99,6 +99,9 @@ fn c13_register() {
         lm::FD_VALID = kani::any();
         lm::FD_IS_SOCKET = kani::any();
         lm::FCNTL_GETFL = kani::any();
+        // any libc call the front-end itself may add (e.g. a sigaction query) can fail: the descriptor must be released on
+        // every rejection path (seed C13e: an early `check_signal(signal)?` before the fd had an owner)
+        lm::SIGACTION_FAIL_FROM = 0;
         kani::assume(lm::FCNTL_GETFL >= 0 && (lm::FCNTL_GETFL & libc::O_NONBLOCK) == 0);
     }
     let res = if kani::any() { register(sig, Raw(fd)) } else { register_raw(sig, fd) };
